@@ -50,6 +50,13 @@ def gen_case(rng, k):
         # two bare user moves inside one shipped CompositeMove entry: a trial of that entry executes every member, whatever the others answered
         table.append({"kind": "user_composite", "oids": [7, 8], "name": "ucomp", "probability": 1.0,
                       "scripts": [[["ret", r5.choice(["True", "1", "x", "False", "0"])] if r5.random() < 0.6 else ["shift"] for _ in range(40)] for _ in range(2)]})
+    r6 = random.Random(k * 7919 + 5)
+    users = [e for e in table if e["kind"] == "user" and e["name"] != "user0_again"]
+    if len(users) >= 2 and r6.random() < 0.4:
+        # an entry that is never drawn freely (weight 0) but forced into every step (minimum_count=1): it is executed, so it must hear about
+        # every change like any other entry (seeded change C20-11: notification skips entries whose weight is 0)
+        users[-1]["probability"] = 0.0
+        users[-1]["minimum_count"] = 1
     for ent in table:
         if r2.random() < 0.25:
             ent["criteria_kind"] = r2.choice(["len0", "boolfalse"])      # explicit criteria objects that are falsy as Python objects
